@@ -27,3 +27,21 @@ Fixpoint layout_denote (f : N -> Z) (layout : list region) (x : N) : Z :=
     KPHYS -> DIRECT map *)
 Definition rdirect_region (r : region) : region :=
   {| r_first := 0; r_last := r_last r - r_first r; r_meth := METH_RDIRECT; r_act := ACT_RDIRECT |}.
+
+(** * Other architectures, layout level *)
+
+(** ia32 Linux with VMALLOC_START = [vs]: the direct mapping is
+    [0xc0000000, vs - 1], everything else below 4G goes through the page tables;
+    the reverse direct map accepts exactly the image [0, vs - 1 - 0xc0000000] *)
+Definition ia32_fwd_spec (vs x : N) : Z :=
+  if (0xc0000000 <=? x) && (x <? vs) then Z.of_nat METH_DIRECT
+  else if x <=? 0xffffffff then Z.of_nat METH_PGT else METH_NONE.
+Definition ia32_rev_spec (vs p : N) : Z :=
+  if p <? vs - 0xc0000000 then Z.of_nat METH_RDIRECT else METH_NONE.
+
+(** a linear direct mapping of [first, last] with offset [off]: the reverse
+    direct map accepts exactly the image [first + off, last + off] *)
+Definition lindm_fwd_spec (first last x : N) : Z :=
+  if (first <=? x) && (x <=? last) then Z.of_nat METH_DIRECT else METH_NONE.
+Definition lindm_rev_spec (first last : N) (off : Z) (p : N) : Z :=
+  if (lin off first <=? p) && (p <=? lin off last) then Z.of_nat METH_RDIRECT else METH_NONE.
